@@ -19,7 +19,9 @@ ALWAYS_SEARCH = True
 RULE = ('selection: datasets (normal/uniform/exponential/beta/lognormal/bimodal/student-t/integer ties/constant/tiny n/'
         'huge+tiny scale/NaN-containing, n in 2..200) x candidate lists drawn from the 8 real families in the three '
         'reference forms (class, FQN string, instance prototype) and harness stubs (raise in __init__/fit/cdf, NaN and '
-        '+inf statistics, rigged cdfs incl. two classes with bit-identical statistics and an unbeatable one), '
+        '+inf statistics, rigged cdfs incl. two classes with bit-identical statistics and an unbeatable one; several '
+        'prototypes of ONE class with different hyper-parameters in both orders: GaussianKDE bandwidths, TruncatedGaussian '
+        'bounds, parametrised stub — the selected entry is identified by class AND the KS of the returned model), '
         'lengths 1..10, duplicates allowed; each candidate\'s outcome is computed with the code\'s own calls '
         '(get_instance, fit, kstest(X, instance.cdf)) and sent as Option-KS list; distinct by (dataset, list), '
         'non-trivial when >= 2 candidates are fittable.  filters: generated table vs introspection, all 12 '
@@ -217,7 +219,32 @@ def all_entries():
     ents.append(Entry('inst:GaussianKDE(bw=0.3)', GaussianKDE(bw_method=0.3)))
     ents.append(Entry('fqn:missing-class', 'copulas.univariate.NoSuchFamily'))
     ents.append(Entry('fqn:no-dot', 'GaussianUnivariate'))
+    ents.extend(e for fam in same_family_prototypes().values() for e in fam)
     return ents
+
+
+def same_family_prototypes():
+    """several prototypes of ONE class with different hyper-parameters (hence different KS statistics)."""
+    from copulas.univariate import GaussianKDE, TruncatedGaussian
+    return {
+        'GaussianKDE': [Entry('inst:GaussianKDE(bw=%s)' % bw, GaussianKDE(bw_method=bw)) for bw in (3.0, 0.05, 1.0, 0.2)],
+        'TruncatedGaussian': [Entry('inst:TruncatedGaussian(-200,200)', TruncatedGaussian(minimum=-200.0, maximum=200.0)),
+                              Entry('inst:TruncatedGaussian(auto)', TruncatedGaussian()),
+                              Entry('inst:TruncatedGaussian(-1e4,1e4)', TruncatedGaussian(minimum=-1e4, maximum=1e4))],
+        'StubParam': [Entry('inst:StubParam(%s)' % d, StubParam(delta=d)) for d in (0.3, 0.0, -0.15, 0.08)]
+        + [Entry('inst:StubParam(fail,2)', StubParam(fail=True))],
+    }
+
+
+def same_family_lists():
+    """fixed lists: same-family prototypes in both orders, alone and around another family."""
+    from copulas.univariate import GaussianUnivariate, StudentTUnivariate
+    P = same_family_prototypes()
+    kde, tg, sp = P['GaussianKDE'], P['TruncatedGaussian'], P['StubParam']
+    student, gauss = Entry('cls:StudentTUnivariate', StudentTUnivariate), Entry('cls:GaussianUnivariate', GaussianUnivariate)
+    return [('same-family', L) for L in (
+        [kde[0], kde[1]], [kde[1], kde[0]], [gauss, kde[2], kde[3], kde[1]], [tg[0], student, tg[1]], [tg[1], student, tg[0]],
+        [sp[0], sp[1]], [sp[1], sp[0]], [sp[4], sp[0], gauss, sp[2], sp[3]])]
 
 
 class Outcomes:
@@ -330,7 +357,8 @@ def candidate_lists(rng, entries, count):
     bad_stubs = [e for e in stubs if e not in good_stubs]
     lists = []
     for k in range(count):
-        mode = rng.choice(['real', 'real', 'mixed', 'mixed', 'mixed', 'stubs', 'bad-only', 'single', 'twins', 'dupes'])
+        mode = rng.choice(['real', 'real', 'mixed', 'mixed', 'mixed', 'stubs', 'bad-only', 'single', 'twins', 'dupes', 'same-family',
+                           'same-family'])
         if mode == 'real':
             L = rng.sample(real, rng.randint(2, 6))
         elif mode == 'mixed':
@@ -341,6 +369,10 @@ def candidate_lists(rng, entries, count):
             L = rng.sample(bad_stubs, rng.randint(1, 4))
         elif mode == 'single':
             L = [rng.choice(entries)]
+        elif mode == 'same-family':
+            fam = rng.choice(sorted(same_family_prototypes()))
+            protos = [e for e in entries if e.key.startswith('inst:' + fam + '(')]
+            L = rng.sample(protos, rng.randint(2, min(4, len(protos)))) + rng.sample(fast, rng.randint(0, 2))
         elif mode == 'twins':
             tw = [e for e in stubs if 'Twin' in e.key]
             L = rng.sample(tw, rng.randint(2, 4)) + rng.sample(fast, rng.randint(0, 2)) + rng.sample(bad_stubs, rng.randint(0, 2))
@@ -354,14 +386,28 @@ def candidate_lists(rng, entries, count):
 
 # =============================================================================== real observations
 def real_univariate_fit(objs, X, **kw):
-    """-> ('ok', type) | ('err', kind)"""
+    """-> ('ok', type, ks of the fitted model on X) | ('err', kind).
+    `to_dict()['type']` cannot tell two prototypes of one class apart; the KS statistic of the fitted wrapper
+    (same calls: kstest(X, model.cdf), the selected instance was re-fitted on the same X) can."""
     from copulas.univariate import Univariate
     try:
         u = Univariate(candidates=objs, **kw) if objs is not None else Univariate(**kw)
         u.fit(X)
-        return ('ok', u.to_dict()['type'])
+        t = u.to_dict()['type']
     except Exception as e:  # noqa
         return ('err', vc.exc_kind(e))
+    try:
+        ks = float(kstest(X, u.cdf)[0])
+    except Exception:
+        ks = None
+    return ('ok', t, ks)
+
+
+def selected_positions(L, outcomes, real):
+    """list positions the real result can stand for: same class and (when identifiable) bit-identical KS."""
+    idxs = [i for i, e in enumerate(L) if e.type == real[1]]
+    exact = [i for i in idxs if outcomes[i] is not None and real[2] is not None and outcomes[i] == real[2]]
+    return exact or idxs
 
 
 # =============================================================================== tie
@@ -527,13 +573,18 @@ def check_selection(lean, L, outcomes, real):
     sel = ask(lean, 'sel ' + toks)
     fit = ask(lean, 'fit ' + toks)
     if real[0] == 'ok':
-        idxs = [i for i, e in enumerate(L) if e.type == real[1]]
+        idxs = selected_positions(L, outcomes, real)
         accepted = any(ask(lean, f'acc {i} {toks}') == 'yes' for i in idxs)
-        model_type = L[int(sel.split()[1])].type if sel.startswith('ok ') else None
+        model_idx = int(sel.split()[1]) if sel.startswith('ok ') else None
+        model_type = L[model_idx].type if model_idx is not None else None
         if not accepted:
-            return {'why': 'selected class is not a minimiser among the fittable candidates', 'model': sel}
+            return {'why': 'selected candidate is not a minimiser among the fittable candidates', 'model': sel,
+                    'real positions': idxs}
         if model_type != real[1] or not fit.startswith('ok '):
             return {'why': 'selected class differs from the model fold', 'model': sel, 'model_type': model_type}
+        if model_idx not in idxs and not same(outcomes[model_idx], real[2]):
+            return {'why': 'selected candidate (same class, other hyper-parameters) differs from the model fold',
+                    'model': sel, 'real positions': idxs}
         return None
     accepted = ask(lean, f'acc none {toks}') == 'yes'
     if not accepted:
@@ -549,8 +600,9 @@ def tie_select(ctx, lean, outs):
     bad = None
     hyp_bad = None
     nondet = 0
-    for did, kind, X in datasets(ctx, 'S', 10 + 4 * (ctx.scale - 1)):
-        for mode, L in candidate_lists(rng, entries, 8 if ctx.scale == 1 else 10):
+    for dk, (did, kind, X) in enumerate(datasets(ctx, 'S', 10 + 4 * (ctx.scale - 1))):
+        for mode, L in candidate_lists(rng, entries, 8 if ctx.scale == 1 else 10) + \
+                (same_family_lists() if dk < 3 * ctx.scale else []):
             outcomes = [outs.get(did, e, X) for e in L]
             real = real_univariate_fit([e.obj for e in L], X)
             d = check_selection(lean, L, outcomes, real)
@@ -572,6 +624,12 @@ def tie_select(ctx, lean, outs):
                     ctx.count('select:exact-tie-at-minimum')
                     if len({e.type for e, o in zip(L, outcomes) if o == min(vals)}) > 1:
                         ctx.count('select:exact-tie-at-minimum-between-classes')
+            by_type = {}
+            for e, o in zip(L, outcomes):
+                if o is not None and o == o:
+                    by_type.setdefault(e.type, set()).add(o)
+            if any(len(v) > 1 for v in by_type.values()):
+                ctx.count('select:same-class-prototypes-with-different-ks')
             if any(o is not None and o != o for o in outcomes):
                 ctx.count('select:nan-present')
             if any(o is None for o in outcomes):
@@ -643,6 +701,10 @@ def gm_refs():
              Entry('inst:Univariate(bounded)', Univariate(bounded=B.BOUNDED)),
              Entry('inst:Univariate(nonparam,semi)', Univariate(parametric=P.NON_PARAMETRIC, bounded=B.SEMI_BOUNDED)),
              Entry('inst:Univariate([Uniform,Gaussian])', Univariate(candidates=[UniformUnivariate, GaussianUnivariate])),
+             Entry('inst:Univariate([KDE(3.0),KDE(0.05)])',
+                   Univariate(candidates=[GaussianKDE(bw_method=3.0), GaussianKDE(bw_method=0.05)])),
+             Entry('inst:Univariate([StubParam(0.3),Gaussian,StubParam(0.0)])',
+                   Univariate(candidates=[StubParam(delta=0.3), GaussianUnivariate, StubParam(delta=0.0)])),
              Entry('inst:Univariate([raising])', Univariate(candidates=[StubRaiseFit, StubNaN, StubRaiseCdf])),
              Entry('inst:Univariate([Twin,Twin,raise])', Univariate(candidates=[StubTwinB, StubTwinA, StubRaiseFit])),
              Entry('inst:StubParam(fail)', StubParam(fail=True)), Entry('inst:StubParam(0.04)', StubParam(delta=0.04)),
@@ -973,7 +1035,9 @@ def optimality_violation(L, X, outcomes):
         if not mine:
             return ({'selected': real[1], 'ks': ks}, 'the selected family is one that could be fitted to the data',
                     'Univariate.fit:selected-unfittable')
-        best = min(mine)
+        # the entry actually selected: identified by the KS of the returned model when it is one of this class's
+        # entries (two prototypes of one class differ only there); otherwise, leniently, the class's best entry
+        best = real[2] if real[2] in mine else min(mine)
         smaller = [(e.key, o) for e, o in zip(L, outcomes) if lt(o, best)]
         if smaller:
             return ({'selected': real[1], 'selected_ks': best, 'smaller': smaller, 'ks': ks},
@@ -1003,8 +1067,9 @@ def search(ctx, deep):
         nonlocal checked
         # ---- 1. optimality of Univariate.fit
         entries = all_entries()
-        for did, kind, X in datasets(ctx, 'Q', 30 if deep else 5):
-            for mode, L in candidate_lists(rng, entries, 12 if deep else 5) + [('all-real', [Entry('cls:' + c.__name__, c) for c in real_families()])]:
+        for dk, (did, kind, X) in enumerate(datasets(ctx, 'Q', 30 if deep else 5)):
+            for mode, L in candidate_lists(rng, entries, 12 if deep else 5) + (same_family_lists() if deep or dk < 3 else []) + \
+                    [('all-real', [Entry('cls:' + c.__name__, c) for c in real_families()])]:
                 outcomes = [outs.get(did, e, X) for e in L]
                 checked += 1
                 v = optimality_violation(L, X, outcomes)
@@ -1066,7 +1131,7 @@ def search(ctx, deep):
                     continue
                 for c, u in zip(gm.columns, gm.univariates):
                     v = column_violation(outs, did, c, cfg if kind != 'default' else None, kind == 'default', df[c],
-                                         u.to_dict()['type'])
+                                         u.to_dict()['type'], wrapper_ks(u, df[c]))
                     if v is not None:
                         bad('GaussianMultivariate.fit', dict(inp, column=str(c), configured=v[0]), *v[1:])
 
@@ -1099,7 +1164,7 @@ def search(ctx, deep):
                 changed = (list(now.items()) != list(reference.items()) or any(now[kk] is not reference[kk] for kk in reference)) \
                     if isinstance(reference, dict) and isinstance(now, dict) else now is not reference
                 for c, u in zip(objs[m].columns, objs[m].univariates):
-                    v = column_violation(outs, did, c, reference, False, df[c], u.to_dict()['type'])
+                    v = column_violation(outs, did, c, reference, False, df[c], u.to_dict()['type'], wrapper_ks(u, df[c]))
                     if v is not None:
                         obs, req, cls = v[1:]
                         if changed:
@@ -1116,7 +1181,7 @@ def search(ctx, deep):
     ctx.support = {'oracle_checks': checked, 'failures': found, 'deep': deep}
 
 
-def column_violation(outs, did, c, cfg, ctor_default, series, got):
+def column_violation(outs, did, c, cfg, ctor_default, series, got, got_ks=None):
     """the per-column clause of the property on one fitted column of the real model:
     -> None | (configured, observed, required, class key)"""
     from copulas.univariate import GaussianUnivariate, Univariate
@@ -1137,11 +1202,23 @@ def column_violation(outs, did, c, cfg, ctor_default, series, got):
     else:
         cands, outcomes = selinfo
         mine = [o for e, o in zip(cands, outcomes) if e.type == got and o is not None and o == o]
-        if not mine or any(lt(o, min(mine)) for o in outcomes):
-            return (configured, {'type': got, 'ks': {e.type: o for e, o in zip(cands, outcomes)}},
+        # prototypes of one class are told apart by the KS of the fitted column model (see optimality_violation)
+        if not mine or any(lt(o, got_ks if got_ks in mine else min(mine)) for o in outcomes):
+            return (configured, {'type': got, 'ks of fitted model': got_ks, 'ks': [(e.type, o) for e, o in zip(cands, outcomes)]},
                     'column modelled by a KS-minimiser among the candidates of the '
                     + ('default distribution Univariate' if is_default else 'configured Univariate'), cls_key)
     return None
+
+
+def wrapper_ks(u, series):
+    """KS of a fitted column model that is a `Univariate` selector (None otherwise / on failure)."""
+    from copulas.univariate import Univariate
+    if type(u) is not Univariate:
+        return None
+    try:
+        return float(kstest(series, u.cdf)[0])
+    except Exception:
+        return None
 
 
 def real_column_expectation(outs, did, col, entry, series):
